@@ -133,6 +133,54 @@ def oracle(lines):
     return None
 
 
+def scan_corr(cfgl, lines):
+    """the extracted BlockScanner + regress check (Disk/Scan.v recover_block), run over the index pages found on the
+    closed device, must predict exactly what the reopened store serves from disk for every key.
+    -> (number of blocks scanned, first disagreement or None)"""
+    from . import hybrid as H
+    cfg = dict(t.split("=", 1) for t in cfgl.split()[1:])
+    B, I = int(cfg.get("block", 65536)), int(cfg.get("index", 4096))
+    last, ver_of, pages, real = {}, {}, None, {}
+    after = False
+    for l in lines:
+        name, kv, r, nw, ew, wl = H.parse(l)
+        if name == "ins":
+            last[int(kv["k"])] = int(kv["ver"])
+        for (h, sq) in ew:
+            ver_of[(h, sq)] = last.get(h)
+        if name == "idxdump":
+            pages = {}
+            for item in r[r.index("[") + 1:r.rindex("]")].split(";"):
+                if not item:
+                    continue
+                loc, _, es = item.partition("=")
+                part, _, off = loc.partition("@")
+                pages.setdefault(int(part), []).append(f"{off}:{es}")
+        if name == "reopen":
+            after = True
+        if name == "sload" and after:
+            real[int(kv["k"])] = None if r == "-" else int(r[1:].split(":")[1])
+    if pages is None:
+        return 0, None
+    parts = sorted(pages)
+    out = G.run_model([f"recover B={B} I={I} pages={','.join(pages[p])}" for p in parts])
+    best = {}
+    for p, o in zip(parts, out):
+        infos = G.kv(G.obs(o)).get("infos", "")
+        for e in [x for x in infos.split("/") if x]:
+            h, sq, off, ln = map(int, e.split("."))
+            if h not in best or sq >= best[h]:
+                best[h] = sq
+    for k, got in sorted(real.items()):
+        want = ver_of.get((k, best[k])) if k in best else None
+        if k in best and want is None:
+            return len(parts), f"the model's scan recovers key {k} with sequence {best[k]}, which the flusher never reported writing"
+        if got != want:
+            return len(parts), (f"after reopen the store serves key {k} as {'a miss' if got is None else 'version ' + str(got)}; the model's scan of the "
+                                f"device's index pages recovers {'nothing' if want is None else 'version ' + str(want)} for it")
+    return len(parts), None
+
+
 def must_hit(lines):
     """burst stream: after the flushers have drained, every inserted key is read back (memory holds one entry)"""
     from . import hybrid as H
@@ -187,6 +235,7 @@ def run(pid, tier, seed, gate, replay=None):
     # end to end: multi-blob blocks written, reclaimed and reused through the real store, then a restart; the scan must
     # reconstruct the current generation of every block and nothing of the previous one
     e2e_fail, e2e_n = None, 0
+    scan_blocks, scan_bad = 0, None
     if not replay:
         from . import hybrid as H
         C.build_harness(["hybridsim"])
@@ -202,7 +251,7 @@ def run(pid, tier, seed, gate, replay=None):
             for n in range(1, total + 1):
                 k = upd.get(n, n)
                 ops += [f"ins k={k} ver={ver} size=3000", "wait"]; ver += 1
-            ops += ["close", "reopen"] + [f"get k={k}" for k in range(1, total + 1)]
+            ops += ["close", "idxdump", "reopen"] + [f"sload k={k}" for k in range(1, total + 1)] + [f"get k={k}" for k in range(1, total + 1)]
             hs.append(H.cfg_line(policy="woi", algo="fifo", mem=1, univ=total + 1, block=pages * 4096, blocks=nblocks, index=4096)
                       + "\n" + "\n".join(ops) + "\n")
         # bursts: many entries in one flusher batch (flushers held while they are inserted), sizes around the page
@@ -215,7 +264,7 @@ def run(pid, tier, seed, gate, replay=None):
             for k in range(1, n + 1):
                 ops.append(f"ins k={k} ver={ver} size={rng.choice([100, 3000, 4043, 4044, 4044, 4045, 8140, 8140, 12236, 20000])}"); ver += 1
             ops += ["unhold", "wait"] + [f"get k={k}" for k in range(1, n + 1)]
-            ops += ["close", "reopen"] + [f"get k={k}" for k in range(1, n + 1)]
+            ops += ["close", "idxdump", "reopen"] + [f"sload k={k}" for k in range(1, n + 1)] + [f"get k={k}" for k in range(1, n + 1)]
             hs.append(H.cfg_line(policy="woi", algo="fifo", mem=1, univ=n + 1, block=1048576, blocks=8, index=4096)
                       + "\n" + "\n".join(ops) + "\n")
         e2e_n = len(hs)
@@ -225,6 +274,10 @@ def run(pid, tier, seed, gate, replay=None):
                 o = must_hit(lines)
             if o:
                 e2e_fail = (sc, lines, o); break
+            nblk, bad = scan_corr(cfgl, lines)
+            scan_blocks += nblk
+            if bad and not scan_bad:
+                scan_bad = (sc, lines, bad)
     violations = []
     if e2e_fail and not failing:
         sc, lines, o = e2e_fail
@@ -241,6 +294,11 @@ def run(pid, tier, seed, gate, replay=None):
         rp = C.write_replay(pid, seed, 0, dict(property=pid, stream="fmt/split", script=s, impl_obs=a, model_obs=b, oracle=None,
                                                broken=f"correspondence fmt/split: {len(mism)} batch sequences differ"))
         violations.append(dict(replay=rp, nofail=True, what="Splitter model and implementation differ"))
+    if scan_bad and not failing and not e2e_fail:
+        sc, lines, bad = scan_bad
+        rp = C.write_replay(pid, seed, "scan", dict(property=pid, stream="hybridsim/scan", script=sc, impl_obs=lines[-60:], oracle=None,
+                                                    broken=f"correspondence hybridsim/scan (Disk/Scan.v recover_block vs the reopened store): {bad}"))
+        violations.append(dict(replay=rp, nofail=True, what=bad))
     if gate.get("failed") and not failing:
         rp = C.write_replay(pid, seed, "gate", dict(property=pid, oracle=None, broken=f"Coq gate for Props/{pid}.v: {gate['failed']}"))
         violations.append(dict(replay=rp, nofail=True, what=gate["failed"]))
@@ -252,5 +310,6 @@ def run(pid, tier, seed, gate, replay=None):
              "split or a continued blob",
         samples=[dict(script=scripts[0], impl=[G.obs(x)[:300] for x in res[0][0]])],
         traces_validated_against_impl=len(scripts) - len(mism) - len(failing),
+        device_blocks_scanned_by_the_extracted_scanner=scan_blocks,
         input_distribution=dict(situations=flags), exhaustive=False)
     return cov, violations, ASSUME
